@@ -83,7 +83,9 @@ class Record:
                  invariant: Optional[str] = None, file: Optional[str] = None,
                  enum: Optional[List[Dict[str, Any]]] = None, value_eq: bool = True,
                  mutable: Optional[List[str]] = None, subclasses: Optional[Dict[str, Dict[str, Any]]] = None,
-                 tag_field: str = "kind", defaults: Optional[Dict[str, str]] = None):
+                 tag_field: str = "kind", defaults: Optional[Dict[str, str]] = None,
+                 bases: Optional[List[str]] = None):
+        self.bases = bases or []         # base classes whose method contracts are inherited
         self.defaults = defaults or {}   # constructor defaults of trailing fields (clause text)
         # class hierarchy folded into one record sort: subclasses[name] = dict(tags=[ints], ctor=[field names,
         # a trailing "*" gathers the remaining positional arguments into a tuple], min_args=n)
@@ -122,8 +124,9 @@ class Lemma:
 
 
 class Axiom:
-    def __init__(self, name: str, types: Dict[str, str], body: str, why: str = ""):
+    def __init__(self, name: str, types: Dict[str, str], body: str, why: str = "", props: Optional[List[str]] = None):
         self.name, self.types, self.body, self.why = name, types, body, why
+        self.props = props      # if given: the axiom is added to exactly the contracts/lemmas of these properties
 
 
 class Registry:
